@@ -113,10 +113,10 @@ def generate(rng, tier, index):
             # many tiny constraints: the description gets long (hundreds of lines)
             for _ in range(rng.randint(2, 6)):
                 cs = [refsem.gen_constraint(rng, g, rng.randint(1, 3), witness) for _ in range(rng.randint(20, 60))]
-                ops.append({"op": "ensure", "cs": cs, "nest": rng.randint(0, 5)})
+                ops.append({"op": "ensure", "cs": cs, "nest": rng.randint(0, 7)})
         for _ in range(n_ens):
             cs = [refsem.gen_constraint(rng, g, rng.randint(1, budget_hi), witness) for _ in range(1 if single else rng.choice([1, 1, 2, 3]))]
-            ops.append({"op": "ensure", "cs": cs, "nest": rng.randint(0, 5)})
+            ops.append({"op": "ensure", "cs": cs, "nest": rng.randint(0, 7)})
         p_key = rng.choice([0.0, 0.5, 1.0]) if not scale else 1.0
         ids = [i for i in range(len(decls)) if i not in keys and rng.random() < p_key]
         if ids or rng.random() < 0.15:
